@@ -312,9 +312,16 @@ def classify(fc, ent, impl, oracle, capped):
     return None
 
 
-def shrink(fc, ent, budget=60):
-    """smaller fragment on which implementation and oracle still differ on the same molecule (greedy, bounded)"""
+def shrink(fc, ent, budget=60, run=None):
+    """smaller fragment on which implementation and oracle still differ on the same molecule (greedy, bounded).
+    `run(text)` -> matches of the fragment text on the molecule in the environment under test (None: not read);
+    default: this process."""
     import copy
+
+    def inproc(text):
+        q, cls = impl_read(text)
+        return impl_matches(q, ent['mol'], quiet=True) if cls == 'ok' else None
+    run = run or inproc
 
     def differs(frag):
         try:
@@ -322,10 +329,10 @@ def shrink(fc, ent, budget=60):
                 return False
         except Exception:
             return False
-        q, cls = impl_read(RG.render(frag, plain=True))
-        if cls != 'ok':
+        r = run(RG.render(frag, plain=True))
+        if r is None:
             return False
-        return impl_matches(q, ent['mol'], quiet=True) != EM.embeddings(frag, ent['g'], G=ent['G'])
+        return r != EM.embeddings(frag, ent['g'], G=ent['G'])
     cur = copy.deepcopy(fc.frag)
     progress = True
     while progress and budget > 0:
@@ -363,6 +370,138 @@ def shrink(fc, ent, budget=60):
                 progress = True
                 break
     return cur
+
+
+# ---------------------------------------------------------------------------------------------- the environment of the process
+# The embeddings a fragment denotes do not depend on how the interpreter was started or configured.  Two probes:
+# (1) in this process, every pair that has candidates is matched again with the warnings filter set to 'error' (a warning
+#     emitted inside a `try: constraint(...) except Exception` of the matcher then counts as "constraint failed");
+# (2) a sample of the pairs is matched in child interpreters started with other options (lib_envchild.MODES: -O, -OO,
+#     -W error, a fixed hash seed) - `assert` used as control flow, a docstring used as data, set order show there.
+# Both compare with the ORACLE (the pairs sampled are those on which this process agrees with it), and the recorded input
+# carries the environment.
+ENV_MODES_QUICK = ['O', 'Werror', 'OO+hash']
+ENV_MODES_THOROUGH = ['O', 'OO', 'Werror', 'OO+hash', 'plain']
+
+
+def matches_under_filter(q, mol, action):
+    import warnings
+    with warnings.catch_warnings():
+        warnings.simplefilter(action)
+        return impl_matches(q, mol, quiet=True)
+
+
+def read_and_match_under_filter(text, mol, action):
+    import warnings
+    with warnings.catch_warnings():
+        warnings.simplefilter(action)
+        q, cls = impl_read(text)
+        return impl_matches(q, mol, quiet=True) if cls == 'ok' else None
+
+
+class EnvProbe(object):
+    def __init__(self):
+        self.samples = []
+        self.per_frag = collections.Counter()
+
+    def offer(self, ctx, fc, ent, oracle, inp):
+        """called for a pair with candidates on which this process returns exactly the oracle's embeddings"""
+        ctx.count('env_warnings_error_pairs')
+        r = matches_under_filter(fc.q, ent['mol'], 'error')
+        if r != oracle:
+            env = {'warnings': 'error'}
+            report_env(ctx, fc, ent, oracle, r, inp, env, lambda text: read_and_match_under_filter(text, ent['mol'], 'error'))
+        elif self.per_frag[(id(fc), bool(oracle))] < 1:
+            self.per_frag[(id(fc), bool(oracle))] += 1
+            self.samples.append((fc, ent, oracle, inp))
+
+
+def report_env(ctx, fc, ent, oracle, got, inp, env, run):
+    if isinstance(got, list) and isinstance(oracle, list):
+        what = ('returns an assignment that violates the fragment' if set(got) - set(oracle) else 'omits an assignment that satisfies the fragment')
+    else:
+        what = 'matching raises an exception'
+    what = 'the matches depend on the environment of the process (%s): %s' % (json.dumps(env, sort_keys=True), what)
+    if not any(v['what'] == what for v in ctx.violations):
+        small = shrink(fc, ent, budget=40, run=run)
+        if small != fc.frag:
+            st = RG.render(small, plain=True)
+            r2 = run(st)
+            if r2 is not None:
+                inp = dict(inp, fragment=small, text=st, shrunk_from=fc.text)
+                got, oracle = r2, EM.embeddings(small, ent['g'], G=ent['G'])
+    detail = {'extra': sorted(set(map(tuple, got)) - set(oracle))[:5], 'missing': sorted(set(oracle) - set(map(tuple, got)))[:5]} \
+        if isinstance(got, list) and got[:1] != ['exc'] else {}
+    ctx.violation(what, dict(inp, env=env), expected={'embeddings': oracle[:50], 'n': len(oracle)},
+                  observed={'matches': got[:50] if isinstance(got, list) else got, 'diff': detail})
+
+
+def child_matches(child, text, molpkl):
+    rep = child.ask({'op': 'match', 'text': text, 'molpkl': molpkl})
+    if 'childerror' in rep:
+        raise common.MachineryError('child interpreter (%s) failed: %s' % (child.mode, rep['childerror']))
+    if rep['read'] != 'ok':
+        return None
+    m = rep['matches']
+    return ('exc', m[1]) if m[:1] == ['exc'] else [tuple(t) for t in m]
+
+
+def run_env_children(ctx, probe):
+    """the sampled pairs in child interpreters of other modes, all modes in parallel (requests through files)"""
+    import subprocess, sys
+    from . import lib_envchild as EC
+    rng = ctx.rng
+    samples = probe.samples
+    cap = ctx.n(5000, 25000)
+    if len(samples) > cap:
+        keep = [s for s in samples if s[0].origin == 'small']
+        rest = [s for s in samples if s[0].origin != 'small']
+        samples = keep[:cap] + rng.sample(rest, max(0, min(len(rest), cap - len(keep))))
+    if not samples or ctx.time_left() < 90:
+        ctx.count('env_children_not_run')
+        return
+    modes = ENV_MODES_THOROUGH if ctx.thorough() else ENV_MODES_QUICK
+    reqf = os.path.join(ctx.scratch, 'c08_env_requests.jsonl')
+    with open(reqf, 'w') as f:
+        f.write(json.dumps({'op': 'hello'}) + '\n')
+        for fc, ent, oracle, inp in samples:
+            f.write(json.dumps({'op': 'match', 'text': fc.text, 'molpkl': inp['molpkl']}) + '\n')
+    procs = []
+    for mode in modes:
+        outf = os.path.join(ctx.scratch, 'c08_env_%s.jsonl' % mode.replace('+', '_'))
+        procs.append((mode, outf, EC.spawn_batch(mode, reqf, outf)))
+    for mode, outf, p in procs:
+        try:
+            p.wait(timeout=max(60, ctx.time_left() - 30))
+        except subprocess.TimeoutExpired:
+            p.kill()
+            raise common.MachineryError('the %s child interpreter did not finish in time' % mode)
+        lines = [json.loads(l) for l in open(outf)]
+        if len(lines) != len(samples) + 1:
+            raise common.MachineryError('the %s child interpreter answered %d of %d requests (exit %r)' % (mode, len(lines), len(samples) + 1, p.returncode))
+        facts = lines[0]
+        want_asserts = '-O' not in EC.MODES[mode]['argv'] and '-OO' not in EC.MODES[mode]['argv']
+        if facts.get('asserts') != want_asserts:
+            raise common.MachineryError('child interpreter %s: assert statements %s, expected %s' % (mode, facts.get('asserts'), want_asserts))
+        ctx.count('env_child_%s_pairs' % mode, len(samples))
+        child = None
+        for (fc, ent, oracle, inp), rep in zip(samples, lines[1:]):
+            if 'childerror' in rep:
+                raise common.MachineryError('child interpreter (%s) failed: %s' % (mode, rep['childerror']))
+            got = None if rep['read'] != 'ok' else (('exc', rep['matches'][1]) if rep['matches'][:1] == ['exc'] else [tuple(t) for t in rep['matches']])
+            if got != oracle:
+                env = {'mode': mode, 'argv': EC.MODES[mode]['argv'], 'env': EC.MODES[mode]['env']}
+                if got is None:
+                    ctx.violation('reading a fragment depends on the environment of the process (%s)' % json.dumps(env, sort_keys=True),
+                                  dict(inp, env=env), expected='ok', observed=rep['read'])
+                    continue
+                if child is None:
+                    child = EC.EnvChild(mode)
+                report_env(ctx, fc, ent, oracle, got, inp, env, lambda text, c=child, e=ent, i=inp: child_matches(c, text, i['molpkl']))
+                if sum(1 for v in ctx.violations if '"mode": "%s"' % mode in v['what']) >= 3:
+                    break
+        if child is not None:
+            child.close()
 
 
 def check_pair(ctx, fc, ent, requests, selfcheck=True):
@@ -416,6 +555,8 @@ def check_pair(ctx, fc, ent, requests, selfcheck=True):
     elif isinstance(impl, list) and len(set(impl)) != len(impl):
         ok = False
         ctx.violation('returns an assignment twice', inp, expected='no duplicates', observed=impl[:50])
+    elif raw and not capped and getattr(ctx, 'env_probe', None) is not None:
+        ctx.env_probe.offer(ctx, fc, ent, oracle, inp)
     if not capped:
         requests.append((fc, ent, impl, sorted(tuple(int(x) for x in t) for t in raw)))
     return ok
@@ -661,6 +802,7 @@ def run(ctx):
     for fname, rec in common.load_corpus('C08'):
         ctx.count('corpus')
         replay(ctx, rec)
+    ctx.env_probe = EnvProbe()
     pool = build_pool(ctx)
     ctx.assumption_checks['A-graph'] = {'ok': not pool.bad_graph,
                                         'detail': 'IsInRing/GetBonds/NumRings/no parallel bonds consistent with the extracted graph on %d molecules%s'
@@ -741,6 +883,7 @@ def run(ctx):
         for fc in rng.sample(dense, min(len(dense), ctx.n(2, 5))):
             ctx.count('dense_pairs')
             check_pair(ctx, fc, ent, requests, selfcheck=False)
+    run_env_children(ctx, ctx.env_probe)
     run_model(ctx, requests, fcs)
     run_layouts(ctx, layout_groups)
     reach_floor(ctx)
@@ -832,6 +975,21 @@ def replay(ctx, rec):
     ent = pool.add(inp.get('molecule', inp.get('smiles', '?')), mol)
     if ent is None:
         raise common.MachineryError('cannot rebuild the molecule of the recorded input')
+    if 'env' in inp:
+        # the recorded environment is re-created: the warnings filter in this process, or a child interpreter of that mode
+        oracle = EM.embeddings(fc.frag, ent['g'], G=ent['G'])
+        env = inp['env']
+        if 'warnings' in env:
+            got = read_and_match_under_filter(fc.text, ent['mol'], env['warnings'])
+        else:
+            from . import lib_envchild as EC
+            child = EC.EnvChild(env['mode'])
+            got = child_matches(child, fc.text, base64.b64encode(ent['mol'].ToBinary()).decode())
+            child.close()
+        if got != oracle:
+            ctx.violation('the matches depend on the environment of the process (%s)' % json.dumps(env, sort_keys=True), inp,
+                          expected=oracle[:50] if isinstance(oracle, list) else oracle, observed=got[:50] if isinstance(got, list) else got)
+        return len(ctx.violations) + sum(v['count'] for v in ctx.known_seen.values()) == before
     check_pair(ctx, fc, ent, [], selfcheck=False)
     return len(ctx.violations) + sum(v['count'] for v in ctx.known_seen.values()) == before
 
